@@ -684,3 +684,35 @@ def c14(ctx):
                 "object that is then initialised again; TLC validates every returned value against the exact value "
                 "(module Dbl) where the specification has one and against the library's own evaluation")
     simple(ctx, "MC_C14", "Trace_C14", cfg="llvm", floor=0.5)
+
+
+@plan("C41")
+def c41(ctx):
+    ctx.rule = ("TLC model-checks the thread-safe design (module Conc: reference count, lazily cached hash and Dummy "
+                "counter shared by 3 threads x 2 rounds; with the plain read-modify-write of the single-threaded build the "
+                "invariants CountsRestored, NeverFreedWhileShared and DummiesDistinct must each be refuted); TLC generates "
+                "programs of 8 operations (hash, print, compare, add, mul, pow, sub, diff, subs, expand, free symbols, "
+                "numeric evaluation, argument access) over 10 shared expressions; in a build configured "
+                "WITH_SYMENGINE_THREAD_SAFE 4 or 8 threads run each program repeatedly on the same objects, started "
+                "together at staggered positions; TLC validates that every thread obtained the results of the sequential "
+                "run in every repetition, that the reference counts of the shared objects are restored, that the Dummy "
+                "indices drawn concurrently are pairwise distinct and complete; the same cases run under ThreadSanitizer "
+                "(halt on the first report), which attributes a data race to the case")
+    ctx.model_check("Conc", cfg="Conc.cfg")
+    for neg in ("ConcNeg1.cfg", "ConcNeg2.cfg", "ConcNeg3.cfg"):
+        ctx.model_check("Conc", cfg=neg, expect_violation=True)
+    cases = ctx.gen("MC_C41")
+    # (a corrupted count can leave threads spinning where signals are not delivered: the driver's own time limit applies)
+    tmo = 1500 if ctx.thorough else 90
+    ev = ctx.drive("thread", cases, max_crashes=2, timeout=tmo)
+    ctx.judge(ctx.validate("Trace_C41", ev, floor=0.9), cases)
+    # under ThreadSanitizer (about ten times slower): a tenth of the repetitions
+    rows = L.read_ndjson(cases)
+    for r in rows:
+        r["reps"] = max(20, r["reps"] // 10)
+        r["budget_s"] = 120
+    tcases = cases.replace(".cases", "") + ".tsan.cases"
+    L.write_ndjson(tcases, rows)
+    env = {"TSAN_OPTIONS": "halt_on_error=1 abort_on_error=1 report_signal_unsafe=0", "SEV_CASE_TIMEOUT": "300"}
+    ev2 = ctx.drive("tsan", tcases, env=env, max_crashes=1, timeout=tmo)
+    ctx.judge(ctx.validate("Trace_C41", ev2, floor=0.9), tcases)
